@@ -167,3 +167,34 @@ func VerifH_C12_foreach_close_race() {
 	verifrt.Settle()
 	verifrt.Assert(verifrt.LiveGoroutines() == 0, "no goroutine of the loop step survives Close")
 }
+
+// C09 (foreach instance): a loop step that has been given the input it waits for does not show as
+// waiting_for_input in that stage (the run loop's detector counts steps by State()).
+func VerifH_C09_foreach_no_waiting_window() {
+	sub := &vSub{gate: make(chan struct{})}
+	h := newHandler()
+	r, err := (&runnableStep{workflow: sub, logger: vLogger{}}).Start(nil, "loop", h)
+	verifrt.Assert(err == nil, "Start succeeds")
+	stages := []string{"enabling", "execute"}
+	upto := verifrt.Choice("stage", 2)
+	for a := 0; a <= upto; a++ {
+		if verifrt.Choice("let-step-run-first", 2) == 1 {
+			verifrt.Settle()
+		}
+		if a == 0 {
+			verifrt.Assert(r.ProvideStageInput("enabling", map[string]any{"enabled": nil}) == nil, "enabling input accepted")
+		} else {
+			verifrt.Assert(r.ProvideStageInput("execute", map[string]any{"items": []any{verifrt.NondetVal("item")}}) == nil, "execute input accepted")
+		}
+		if a == upto {
+			rs := r.(*runningStep)
+			rs.lock.Lock()
+			st, cs := rs.currentState, string(rs.currentStage)
+			rs.lock.Unlock()
+			verifrt.Reach("checked-" + stages[a])
+			verifrt.Assert(!(st == step.RunningStepStateWaitingForInput && cs == stages[a]), "a loop step that was given its "+stages[a]+" input no longer shows as waiting for input in that stage")
+		}
+	}
+	close(sub.gate)
+	verifEpilogue(h, r, sub)
+}
